@@ -4,4 +4,5 @@ import KoalaVerif.Props.C02
 import KoalaVerif.Props.C04
 import KoalaVerif.Props.C05
 import KoalaVerif.Props.C06
+import KoalaVerif.Props.C12
 import KoalaVerif.Props.C14
